@@ -18,8 +18,8 @@ ASSUMPTIONS = [
     'distinct abscissae (the sort is then unique); npoly = 1; groupbadpix/requiren/oldset unused',
     'every fit of the loop is uniquely solvable (each segment keeps >= nord good points); problems that become '
     'ill-posed after rejection follow C09\'s status path and are skipped (counted in the evidence)',
-    'lower, upper >= 0; fewer good points than nord, or an error -2 of the first fit, return early with an all-True '
-    'mask (documented early exit) and are outside the quantifier',
+    'lower, upper >= 0; inputs on which iterfit gives up early (fewer good points than nord, first fit -2) are judged by '
+    'the direct checks only (the mask must still flag non-positive weights False)',
 ]
 
 HEADER = '''From Coq Require Import QArith ZArith List. Import ListNotations.
